@@ -24,14 +24,20 @@ def h_written_json_is_valid(nr, nc, typ):
     md = pick(['none', 'both'], 'md')
     t, a = make_table(nr, nc, md=md, zeros=1, type_=typ)
     sym = b.mode == 'sym'
-    doc = t.to_json('verif', creation_date=DATE)
+    streamed = flag('direct_io')
+    if streamed:        # the streamed form of the writer emits the document piecewise
+        fh = T.SFile() if sym else __import__('io').StringIO()
+        t.to_json('verif', direct_io=fh, creation_date=DATE)
+        doc = fh.value() if sym else fh.getvalue()
+    else:
+        doc = t.to_json('verif', creation_date=DATE)
     if sym:
         text, holes = concretise(doc)
         parsed = resolve(json.loads(text), holes, [])
     else:
         parsed = json.loads(doc)
     r, e = call(lambda: _validator()._validate_json(table=parsed, format_version='1.0.0'))
-    sig = dict(type=typ)
+    sig = dict(type=typ, streamed=int(streamed))
     if e is not None:
         fail('json:validator-raised', f"{type(e).__name__}: {e}"[:160], **sig)
         return
@@ -152,6 +158,8 @@ def jobs(tier):
     for typ in VOCAB:
         out.append(('written_json_is_valid', (2, 2, typ)))
         out.append(('written_hdf5_is_valid', (2, 2, typ)))
+    out.append(('written_json_is_valid', (1, 2, 'OTU table')))      # non-square: rows and columns cannot be mixed up unnoticed
+    out.append(('written_hdf5_is_valid', (2, 1, 'OTU table')))
     if tier != 'quick':
         out.append(('written_json_is_valid', (2, 3, 'OTU table')))
         out.append(('written_hdf5_is_valid', (3, 2, 'OTU table')))
